@@ -13,7 +13,7 @@ structure DState where
   world : Option IsoMdl.Session.World := none
   saved : List (String × IsoMdl.Session.World) := []
 
-def stateless : List (List String → Option String) := [ageOp, ivOp, c13Op, c06Op, eqOp, issuanceOp, discOp, cddlOp, wireOp]
+def stateless : List (List String → Option String) := [ageOp, ivOp, c13Op, c06Op, eqOp, issuanceOp, discOp, cddlOp, wireOp, tag24Op]
 
 def step (st : DState) (line : String) : DState × String :=
   let toks := (line.trimAscii.toString.splitOn " ").filter (· ≠ "")
